@@ -169,6 +169,7 @@ func rangeCachedCases(add func(in interface{})) {
 			}
 		}
 		add(cacheIn{Cache: true, Case: c, Thr: 2, Seed: 93, MissPct: 0, DropPct: 0})
+		add(cacheIn{Cache: true, Case: c, Thr: 2, Seed: 193, MissPct: 0, DropPct: 0, Trunc: 60}) // some writes cut short: entries found with their payload lost
 		add(cacheIn{Cache: true, Case: c, Thr: 2, Seed: 94, MissPct: 30, DropPct: 0, Retain: true})
 	}
 }
